@@ -244,6 +244,14 @@ let op_equals f =
   | None -> "equals parse-error"
   | Some (a, b) -> Printf.sprintf "equals %d 1 1" (if equals_uri a b then 1 else 0)
 
+let op_spec_canon f = field_of_text (canon_ip6 (text_of_field_nn f.(1)))
+let op_spec_resolve f =
+  let strict = bool_of_field f.(1) in
+  let b = text_of_field_nn f.(2) and r = text_of_field_nn f.(3) in
+  Printf.sprintf "%s %d" (match resolve_text strict b r with Some t -> field_of_text t | None -> "-")
+    (if resolve_corner strict b r then 1 else 0)
+let op_spec_normal f = field_of_text (normal_text (text_of_field_nn f.(1)))
+
 let dispatch (f : string array) : string =
   match f.(0) with
   | "esc" -> op_esc f
@@ -260,6 +268,9 @@ let dispatch (f : string array) : string =
   | "normalize" -> op_normalize f
   | "makeowner" -> op_makeowner f
   | "equals" -> op_equals f
+  | "spec_canon" -> op_spec_canon f
+  | "spec_resolve" -> op_spec_resolve f
+  | "spec_normal" -> op_spec_normal f
   | "suite" -> suite (int_of_string f.(1))
   | "spec_uri" -> spec_uri f
   | op -> "?unknown-op " ^ op
